@@ -181,6 +181,9 @@ pub mod verif {
             AtomicU8::new(0), AtomicU8::new(0), AtomicU8::new(0), AtomicU8::new(0),
         ];
         pub static TAG_CLONES: AtomicU8 = AtomicU8::new(0);
+        /// zero-sized payload (VecDeque reports capacity usize::MAX for zero-sized element types)
+        #[derive(Debug)]
+        pub struct ZVal;
         #[derive(Debug, PartialEq, Eq)]
         pub struct Tag(pub u8);
         impl Drop for Tag {
